@@ -79,6 +79,11 @@ CLAIMED['C04'] = dict(
    text="Proved: every scalar field dtype HDF5 can hold survives its string form (np.dtype(str(dt)) = dt over the enumerated universe, fixed-width bytes of any width, big-endian included); a PointList comes back with the same length and, in name order, exactly its fields, each with its dtype and content; the same set of fields; a PointListArray re-populated cell by cell from what h5py returns equals the original (empty cells, zero extents); the swallowed per-cell ValueError is shown by witness to drop a cell if a read ever raised. Correspondence + oracle on 500 PointLists/PointListArrays over 22 dtypes: raw per-field datasets and dtype attributes, read-back, second generation.",
    note=TB + "Model coq/Model/Pl.v. PARTIAL: column/cell contents are tokens (digest of dtype+bytes); that h5py stores/returns them and the vlen machinery are observed, not modelled. Field order is not part of the guarantee (name order after read).",
    technique="Coq proof (finite dtype universe by evaluation lifted to a theorem; sort/permutation lemmas) + vm_compute correspondence", ref="5 C04")
+
+CLAIMED['C15'] = dict(
+   text="Total theorem for the metadata codec over its WHOLE value universe (numpy scalars, bytes, sets, mixed and nested sequences, tuples of tuples of anything, dicts to any depth): save_item fails, or the item it wrote reads back to a kind-sensitively equal value -- up to exactly the two known findings, excluded by a decidable side condition and refuted by witnesses in C03. Bad keys and unsupported kinds are proved to be rejected. The Array calibration round trip is proved for ALL extents incl. zero-length axes. Names (empty, '.', '/', NUL, reserved, 5000 chars, colliding with datasets) at 6 positions, 0-d and zero-extent arrays, PointList edge inputs (sub-array fields, 0-d, unstructured) and empty containers are decided on the real code by the oracle stream (408 edge inputs): save raised, or read succeeded with equal content.",
+   note=TB + MDM + "PARTIAL: the names / PointList / empty-container streams are oracle-only (no Coq model of HDF5 name parsing). Known findings as in C03.",
+   technique="Coq total theorem (inversion of every accepting branch of the writer model) + edge-input oracle + vm_compute correspondence", ref="5 C15")
 PENDING = {}
 props = [json.loads(l) for l in open(os.path.join(V, 'properties.jsonl'))]
 checks, na = [], []
